@@ -342,11 +342,12 @@ def pair_cases(ctx):
              (2, 2, [("a", {}), ("a", red)], 3, 3, 6000),                               # incl. too tall / too wide
              (2, 3, [("a", {}), ("a", red)], 2, 3, 8000)]
     if ctx.thorough:
-        specs = [(2, 2, [("a", {}), ("b", {}), ("a", red)], 2, 2, None),
-                 (2, 2, [("a", {}), ("b", {}), ("a", red), ("b", red)], 2, 2, None),
-                 (2, 2, [("a", {}), ("a", red)], 3, 3, None),
-                 (2, 3, [("a", {}), ("a", red)], 2, 3, None),
-                 (2, 3, [("a", {}), ("b", {}), ("a", red)], 2, 3, 400000)]
+        # fixed bounds chosen so that the whole thorough run stays well under 15 minutes on this machine
+        specs = [(2, 2, [("a", {}), ("b", {}), ("a", red)], 2, 2, None),                    # 183^2 = 33 489, all
+                 (2, 2, [("a", {}), ("b", {}), ("a", red), ("b", red)], 2, 2, 60000),        # of 463^2
+                 (2, 2, [("a", {}), ("a", red)], 3, 3, 60000),                               # of 3616^2 (too tall / too wide)
+                 (2, 3, [("a", {}), ("a", red)], 2, 3, None),                                # 241^2 = 58 081, all
+                 (2, 3, [("a", {}), ("b", {}), ("a", red)], 2, 3, 60000)]
     for h, w, vals, maxh, maxlen, sample in specs:
         arrays = list(all_arrays(vals, maxh, maxlen))
         pairs = itertools.product(range(len(arrays)), repeat=2)
@@ -359,7 +360,7 @@ def pair_cases(ctx):
             ctx.exhaustive.append("%dx%d ALL ordered pairs over %d cell values, arrays <=%d rows of <=%d cells: %d"
                                   % (h, w, len(vals), maxh, maxlen, total))
         for n, (i, j) in enumerate(pairs):
-            cases.append(dict(h=h, w=w, junk=[], cursor=(0, 0), hide=True, pyte=(ctx.thorough or n % 8 == 0), pair=True,
+            cases.append(dict(h=h, w=w, junk=[], cursor=(0, 0), hide=True, pyte=(n % (4 if ctx.thorough else 8) == 0), pair=True,
                               steps=[("R", (0, 0), arrays[i], "list"), ("R", (h - 1, w - 1), arrays[j], "list")]))
     return cases
 
